@@ -67,6 +67,9 @@ def py_of(c):
     raise AssertionError(c)
 
 
+_REUSED = None
+
+
 def lit_value(text):
     """exact value and unit of a numeric literal as written"""
     t = text
@@ -99,6 +102,24 @@ def oracle(c, _e=None):
         bu = back.dimension or ''
         if bu != unit.lower() and not (bu == '' and unit.lower() in ZERO_UNITS and back.value == 0):
             return 'serialised %r lost the unit %r' % (out, unit)
+        # the same text assigned to a value object that held another number before (a long-lived object per worker
+        # process): it must report what a fresh object reports
+        global _REUSED
+        prev = _REUSED[1] if _REUSED else None
+        if _REUSED is None:
+            _REUSED = [cp.css.DimensionValue('1.5em'), '1.5em']
+        r = _REUSED[0]
+        r.cssText = text
+        _REUSED[1] = text
+        old = cp.ser.prefs.omitLeadingZero
+        cp.ser.prefs.omitLeadingZero = omit
+        try:
+            got, want = (r.type, r.value, r.dimension, r.cssText), (v.type, v.value, v.dimension, v.cssText)
+        finally:
+            cp.ser.prefs.omitLeadingZero = old
+        if got != want:
+            return 'a DimensionValue holding %r and then assigned cssText=%r reports %r, a fresh one %r' % (
+                prev or '1.5em', text, got, want)
         return ''      # (the fixpoint clause belongs to C03 and is checked there)
     if c[0] == 'hex':
         v = cp.css.ColorValue(c[1])
